@@ -60,6 +60,7 @@ func main() {
 	rare := flag.Float64("rare", 0.01, "a block is rare when at most this fraction of the inputs reaches it")
 	keep := flag.Int("keep", 3, "inputs kept per rare block")
 	settleOnly := flag.Bool("settle", false, "Settle of P only (C02 corpus)")
+	resF := flag.String("results", "", "also write, per input, the outcome of every operation (panic flag and shoelace area of the result): used to select inputs on which a deliberately broken build behaves differently")
 	flag.Parse()
 	f, err := os.Open(*in)
 	if err != nil {
@@ -68,6 +69,7 @@ func main() {
 	sc := bufio.NewScanner(f)
 	sc.Buffer(make([]byte, 1<<24), 1<<24)
 	var es []entry
+	var outcomes [][]float64
 	var hits [][]int
 	freq := map[int]int{}
 	for sc.Scan() {
@@ -82,18 +84,32 @@ func main() {
 		}
 		before := snapshot()
 		ok := true
-		if !*settleOnly {
-			ok = guarded(func() { P.Copy().And(Q.Copy()) }) && ok
-			ok = guarded(func() { P.Copy().Or(Q.Copy()) }) && ok
-			ok = guarded(func() { P.Copy().Not(Q.Copy()) }) && ok
-			ok = guarded(func() { P.Copy().Xor(Q.Copy()) }) && ok
-			ok = guarded(func() { P.Copy().DivideBy(Q.Copy()) }) && ok
-		} else {
-			for rule := 0; rule < 4; rule++ {
-				ok = guarded(func() { P.Copy().Settle(canvas.FillRule(rule)) }) && ok
+		var outcome []float64
+		run := func(f func() *canvas.Path) {
+			var r *canvas.Path
+			fin := guarded(func() { r = f() })
+			ok = ok && fin
+			if r == nil {
+				outcome = append(outcome, -1e300) // panic
+			} else {
+				outcome = append(outcome, area(r))
 			}
 		}
+		if !*settleOnly {
+			run(func() *canvas.Path { return P.Copy().And(Q.Copy()) })
+			run(func() *canvas.Path { return P.Copy().Or(Q.Copy()) })
+			run(func() *canvas.Path { return P.Copy().Not(Q.Copy()) })
+			run(func() *canvas.Path { return P.Copy().Xor(Q.Copy()) })
+			run(func() *canvas.Path { return P.Copy().DivideBy(Q.Copy()) })
+		} else {
+			for rule := 0; rule < 4; rule++ {
+				rr := canvas.FillRule(rule)
+				run(func() *canvas.Path { return P.Copy().Settle(rr) })
+			}
+		}
+		outcomes = append(outcomes, outcome)
 		if !ok {
+			outcomes = outcomes[:len(outcomes)-1]
 			continue // hangs are not corpus material (the goroutine keeps counting)
 		}
 		after := snapshot()
@@ -123,6 +139,18 @@ func main() {
 		}
 		es = append(es, entry{l.Desc.P, l.Desc.Q, l.Desc.Box, l.Desc.Scale, l.Fam})
 		hits = append(hits, h)
+	}
+	if *resF != "" {
+		type res struct {
+			E entry
+			O []float64
+		}
+		var rs []res
+		for i := range es {
+			rs = append(rs, res{es[i], outcomes[i]})
+		}
+		b, _ := json.Marshal(rs)
+		os.WriteFile(*resF, b, 0o644)
 	}
 	n := len(es)
 	var blocks []int
@@ -172,4 +200,18 @@ func main() {
 	os.WriteFile(*outF, b, 0o644)
 	total := len(snapshot())
 	fmt.Printf("inputs %d, blocks %d, features (block x hit-count bucket) reached %d, rare (<= %.1f%% of the inputs) %d, corpus %d\n", n, total, len(freq), 100**rare, len(blocks), len(outE))
+}
+
+
+// area: sum of the shoelace areas of the (flat) result's subpaths
+func area(p *canvas.Path) float64 {
+	a := 0.0
+	for _, sp := range p.Split() {
+		c := sp.Coords()
+		for i := range c {
+			j := (i + 1) % len(c)
+			a += c[i].X*c[j].Y - c[j].X*c[i].Y
+		}
+	}
+	return a / 2
 }
